@@ -19,6 +19,10 @@ type CmpOpts struct {
 	// optional field the encoder omits becomes the declared default. It is
 	// applied to the ORIGINAL side only.
 	RoundTrip bool
+	// Hops is the number of encode+decode passes the original went through
+	// (default 1): the nil-struct -> empty-struct normalisation applies once per
+	// pass, one nesting level at a time.
+	Hops int
 	// LenientDouble: an optional non-pointer double that equals its declared
 	// default under == is compared as that default (-0.0 vs 0.0).
 	LenientDouble bool
@@ -86,7 +90,7 @@ func canonValue(b []byte, t *schema.Type, v reflect.Value, optional bool, o CmpO
 				e := reflect.New(t.S.Go).Elem()
 				InitDefault(t.S, e)
 				b = append(b, 1)
-				return canonStruct(b, t.S, e, o.decodedSide())
+				return canonStruct(b, t.S, e, o.nextHop())
 			}
 			return append(b, 0)
 		}
@@ -145,6 +149,15 @@ func canonValue(b []byte, t *schema.Type, v reflect.Value, optional bool, o CmpO
 // description with the path of the first difference.
 func (o CmpOpts) decodedSide() CmpOpts { o.RoundTrip = false; return o }
 
+// nextHop is the option set inside a struct that one pass materialised from nil.
+func (o CmpOpts) nextHop() CmpOpts {
+	if o.Hops > 1 {
+		o.Hops--
+		return o
+	}
+	return o.decodedSide()
+}
+
 // Diff compares an original/expected value a with an observed value b.
 func Diff(s *schema.Struct, a, b reflect.Value, o CmpOpts) string {
 	if bytes.Equal(Canon(s, a, o), Canon(s, b, o.decodedSide())) {
@@ -177,6 +190,7 @@ func diffValue(t *schema.Type, a, b reflect.Value, optional bool, o CmpOpts, pat
 		if a.IsNil() && !b.IsNil() && t.K == schema.StructK && o.RoundTrip && !optional {
 			a = reflect.New(t.S.Go)
 			InitDefault(t.S, a.Elem())
+			o = o.nextHop()
 		}
 		if a.IsNil() || b.IsNil() {
 			return fmt.Sprintf("%s [%s]: nil=%v vs nil=%v", path, t.Sig(), a.IsNil(), b.IsNil())
